@@ -207,6 +207,11 @@ ocp.set_der(v, a)
                 self.B[refine][self.N+d] = B
                 self.tau[refine] = tau
         self.time[refine] = self.time_grid(self.t0, self.T, self.N*refine)
+        if self.groups:
+            # the samples are taken at `refine` equal subdivisions of every control interval (tau), which is not the
+            # N*refine-interval grid of the same class unless the grid is uniform
+            tau = self.tau[refine]
+            self.time[refine] = self.t0 + (tau if self.time[refine].is_row() else tau.T)*self.T
 
         # Evaluate spline on the control grid
         for L,chains in self.groups.items():
